@@ -284,25 +284,58 @@ func check(id, tier string) {
 		}
 	}
 
-	// ---- phase 0: re-confirm every listed known finding with its probe
+	// ---- phase 0: probes of the known-findings file. A `known` entry is
+	// re-confirmed (KNOWN-FINDING line when it still reproduces); the probe of a
+	// `fixed` entry is a regression case: if the violation is back it is
+	// reported like any other.
 	knownPrinted := map[string]bool{}
+	regressions := 0
 	for i := range kn {
 		k := &kn[i]
-		if k.Property != id || k.Status != "known" || len(k.Probe) == 0 {
+		if k.Property != id || len(k.Probe) == 0 || (k.Status != "known" && k.Status != "fixed") {
 			continue
 		}
 		pf := filepath.Join(work, fmt.Sprintf("probe-%d.json", i))
-		rf, _ := json.Marshal(&replayFile{Property: id, Engine: k.Engine, Case: k.Probe})
+		rf, _ := json.MarshalIndent(&replayFile{Property: id, Engine: k.Engine, Case: k.Probe, Tree: tree}, "", " ")
 		os.WriteFile(pf, rf, 0o644)
 		r, stderr, err := runReplay(work, id, pf, 1)
 		if err != nil {
-			trouble("probe of known finding %q failed to run: %v\n%s", k.What, err, stderr)
+			if p := firstPanic(stderr); p != "" && k.Status == "fixed" {
+				r = &result{Violations: []violation{{Property: id, Class: "crash", Msg: p}}}
+			} else {
+				trouble("probe %d of known_findings.json failed to run: %v\n%s", i, err, tail(stderr, 30))
+			}
 		}
 		for _, v := range r.Violations {
-			if k.matches(v) && !knownPrinted[k.What] {
-				fmt.Printf("KNOWN-FINDING: property=%s %s\n", id, k.What)
-				knownPrinted[k.What] = true
+			if v.Property != id {
+				continue
 			}
+			if k.Status == "known" {
+				if k.matches(v) && !knownPrinted[k.What] {
+					fmt.Printf("KNOWN-FINDING: property=%s %s\n", id, k.What)
+					knownPrinted[k.What] = true
+				}
+				continue
+			}
+			isKnown := false
+			for j := range kn {
+				if kn[j].matches(v) {
+					isKnown = true
+				}
+			}
+			if isKnown {
+				continue
+			}
+			dir := filepath.Join(V, "replays", id)
+			os.MkdirAll(dir, 0o755)
+			path := filepath.Join(dir, fmt.Sprintf("regression-%d-%s.json", i, v.Class))
+			vv := v
+			rf, _ := json.MarshalIndent(&replayFile{Property: id, Engine: k.Engine, Case: k.Probe, Expect: &vv, Tree: tree, Trace: r.Trace}, "", " ")
+			os.WriteFile(path, rf, 0o644)
+			fmt.Printf("violation (regression of a fixed finding): %s/%s: %s\n", v.Property, v.Class, v.Msg)
+			fmt.Printf("VIOLATION property=%s replay=%s\n", id, path)
+			regressions++
+			break
 		}
 	}
 
@@ -449,6 +482,9 @@ func check(id, tier string) {
 	}
 	sort.Slice(fails, func(i, j int) bool { return len(fails[i].Case) < len(fails[j].Case) })
 	code := 0
+	if regressions > 0 {
+		code = 1
+	}
 	var reported []string
 	seenClass := map[string]bool{}
 	for _, f := range fails {
@@ -485,7 +521,7 @@ func check(id, tier string) {
 		reported = append(reported, path)
 		code = 1
 	}
-	writeEvidence(id, tier, seed, cfg, outs, time.Since(start), len(reported), knownPrinted, detNote)
+	writeEvidence(id, tier, seed, cfg, outs, time.Since(start), len(reported)+regressions, knownPrinted, detNote)
 	var runs int64
 	for _, o := range outs {
 		runs += o.Runs
